@@ -190,7 +190,41 @@ def element_lookalike_case(seed):
     return dict(structure=S, pattern=P, cell=cell, planted=planted, poses=[])
 
 
+def alkane_case(seed, ncarbon=7):
+    """A zig-zag CH2 chain in a random pose with its atoms listed in random order; the pattern is H-C(-H)-C' listed H first.  The two H of a
+    CH2 are exchanged by a mirror (not by a rotation that keeps C'), every inner carbon has two neighbours, so occurrences overlap and every
+    occurrence is met from two start atoms.  Occurrences: {H, H, C_k, C_k'} for every carbon k and each of its neighbours k'."""
+    from mofun import Atoms
+    rnd = random.Random(seed)
+    cell = geo.CELLS[['cubic', 'tri+', 'ortho'][seed % 3]]
+    C = [np.array([1.26 * k, 0.44 * (-1) ** k, 0.0]) for k in range(ncarbon)]
+    atoms = []
+    for k, c in enumerate(C):
+        up = np.array([0.0, 0.62 * (-1) ** k, 0.0])
+        atoms += [('C', c), ('H', c + up + np.array([0, 0, 0.89])), ('H', c + up - np.array([0, 0, 0.89]))]
+    rot = geo.rotations(rnd, 1, include_axis=False)[0]
+    centre = np.array([0.5, 0.45, 0.55]).dot(cell)
+    pts = rot.apply(np.array([p for _, p in atoms]) - np.mean([p for _, p in atoms], axis=0)) + centre
+    order = list(range(len(atoms)))
+    rnd.shuffle(order)
+    where = {old: new for new, old in enumerate(order)}
+    els = [atoms[o][0] for o in order]
+    pos = [geo.wrap(cell, pts[o]) for o in order]
+    planted = []
+    for k in range(ncarbon):
+        for k2 in (k - 1, k + 1):
+            if 0 <= k2 < ncarbon:
+                planted.append((where[3 * k + 1], where[3 * k], where[3 * k + 2], where[3 * k2]))
+    pat_idx = [1, 0, 2, 3]      # H, C, H of the first carbon and the second carbon
+    with quiet():
+        S = Atoms(elements=els, positions=np.array(pos), cell=cell)
+        P = Atoms(elements=[atoms[i][0] for i in pat_idx], positions=np.array([atoms[i][1] for i in pat_idx]))
+    return dict(structure=S, pattern=P, cell=cell, planted=planted, poses=[])
+
+
 def make_case(spec):
+    if spec.get('special') == 'alkane':
+        return alkane_case(spec['seed'])
     if spec.get('special') == 'element-lookalike':
         return element_lookalike_case(spec['seed'])
     if spec.get('special') == 'methane':
@@ -343,6 +377,8 @@ def specs(tier, seed):
             if tier == 'quick' and (ci + pi) % 2:
                 continue
             out.append(dict(cell=cell, pattern=pat, copies=3, seed=seed * 1000 + 980 + ci, decoys=2, mirror=1 if pat == 'chiral4' else 0, near_miss=1, rng=pi, unwrapped=True))
+    for s in range(6 if tier == 'quick' else 18):
+        out.append(dict(special='alkane', seed=seed * 1000 + 40 + s, rng=s))
     # progress printing switched on
     for ci, cell in enumerate(cells[:3]):
         for pat in ('planar3', 'chiral4', 'sym5'):
